@@ -167,18 +167,40 @@ def in_envelope(text):
     return True
 
 
+def T(x):
+    return ("t", x)
+
+
+# a fixed library and fixed pages first (the random part below must not be the only place where a rule is exercised):
+# blanks that only appear once a nested call is expanded, under positional / numeric / string names; defaults;
+# parameter names spelled with interior blanks; list markers at the start of an expansion
+FIXED_LIB = {
+    "pad": T(" x "), "nl": T("y\n"), "li": T("* i"),
+    "show": ("seq", [T("["), ("param", "1", None), T("]")]),
+    "kshow": ("seq", [T("<"), ("param", "k", T("d")), T("|"), ("param", "n  m", T("?")), T(">")]),
+    "two": ("seq", [("param", "2", T("-")), T("/"), ("param", "1", T("-"))]),
+}
+FIXED_PAGES = []
+for inner in ("pad", "nl", "li"):
+    c = ("call", inner, [])
+    FIXED_PAGES += [("call", "show", [(None, c)]), ("call", "show", [("1", c)]), ("call", "show", [(" 1 ", c)]),
+                    ("call", "kshow", [("k", c)]), ("call", "kshow", [("n m", c), ("k", T(" v "))]),
+                    ("call", "kshow", [("n\tm", c)]), ("call", "two", [("2", c), ("1", T(" a "))]),
+                    ("call", "two", [(None, T(" p ")), (None, c)]), ("call", "two", [("1", c), (None, T("q"))])]
 nlib = 40 if tier == "quick" else 300
 npage = 40 if tier == "quick" else 80
-for li in range(nlib):
+for li in range(-1, nlib):
     ntem = rng.randint(1, 3 if tier == "quick" else 5)
     names = [f"t{i}" for i in range(ntem)]
     lib = {}
     for i, nm in enumerate(names):
         lib[nm] = gen(3, names[:i], True)          # a body only calls earlier templates: acyclic
+    if li == -1:
+        lib, names = dict(FIXED_LIB), list(FIXED_LIB)
     ctx = new_ctx({nm: src(b) for nm, b in lib.items()})
     ref = Ref(lib)
-    for pi in range(npage):
-        page = gen(3 if tier == "quick" else 4, names, False)
+    for pi in range(npage if li >= 0 else len(FIXED_PAGES)):
+        page = gen(3 if tier == "quick" else 4, names, False) if li >= 0 else FIXED_PAGES[pi]
         text = src(page)
         try:
             want = ref.ex(page, None)
